@@ -99,7 +99,7 @@ def points_of(m: dict) -> list[dict]:
 def _work(o):
     env.import_bluebonnet()
     m = drv.measure_ladder(o)
-    return m["pb"], points_of(m)
+    return m["pb"], points_of(m), m["style"] + ("/int GOR" if m["int_gor"] else "")
 
 
 def sweep_oils(ctx: core.Ctx, oils: list[tuple], batch: int = 600) -> None:
@@ -107,14 +107,21 @@ def sweep_oils(ctx: core.Ctx, oils: list[tuple], batch: int = 600) -> None:
         res = list(ex.map(_work, oils, chunksize=8))
     for i in range(0, len(oils), batch):
         log = sweep.SweepLog()
-        for o, (pb, pts) in zip(oils[i:i + batch], res[i:i + batch]):
-            log.begin("oil", {"what": f"oil T={o[0]!r} API={o[1]!r} gg={o[2]!r} GOR={o[3]!r}", "oil": list(o), "pb": pb})
+        for o, (pb, pts, style) in zip(oils[i:i + batch], res[i:i + batch]):
+            log.begin("oil", {"what": f"oil T={o[0]!r} API={o[1]!r} gg={o[2]!r} GOR={o[3]!r} [calls: {style}]", "oil": list(o), "pb": pb,
+                              "call_style": style})
             for pt in pts:
                 log.point(pt["x"], pt["side"], pt["vals"], pt["agree"], pt["flags"], pt["raw"])
             log.end()
             ctx.case(f"oil {o}")
         sweep.judge(ctx, "SweepC12", log)
-    o, (pb, pts) = oils[len(oils) // 2], res[len(oils) // 2]
+    o, (pb, pts, _style) = oils[len(oils) // 2], res[len(oils) // 2]
+    styles: dict = {}
+    for _o, (_pb, _pts, st) in zip(oils, res):
+        styles[st] = styles.get(st, 0) + 1
+    ctx.extra.setdefault("call_styles", {})
+    for st, cnt in styles.items():
+        ctx.extra["call_styles"][st] = ctx.extra["call_styles"].get(st, 0) + cnt
     for j in (0, 55, 56, 57, 58):
         ctx.sample({"oil": o, "p_b": pb, "point": pts[j]["raw"], "agree": pts[j]["agree"], "flags": pts[j]["flags"]})
 
